@@ -2,7 +2,9 @@
 # Must-fail corpus: every patch in selftest/mutants/expect.tsv is applied to a
 # scratch copy of /repo (under $TMPDIR, removed afterwards); the named property
 # check must exit 1 with a VIOLATION, and nothing else counts as caught.
-# Usage: selftest/run.sh [filter]      (SELFTEST_JOBS=4 items run concurrently)
+# Usage: selftest/run.sh [filter]      (SELFTEST_JOBS=4 items run concurrently;
+# SELFTEST_PROP=<id> restricts to one property; SELFTEST_SKIP_UNAPPLICABLE=1
+# tolerates patches that do not apply to the current tree)
 here=$(cd "$(dirname "$0")/.." && pwd)
 export GOFLAGS=-mod=mod GOPROXY=off GOSUMDB=off GOTOOLCHAIN=local
 filter="${1:-}"
@@ -15,7 +17,7 @@ one() {
   (cd /repo && git ls-files -z | xargs -0 cp --parents -t "$d/repo") 2>/dev/null
   cp /repo/go.sum "$d/repo/" 2>/dev/null
   if ! (cd "$d/repo" && patch -p1 -s < "$here/selftest/mutants/$patch" >/dev/null); then
-    echo "SELFTEST-ERROR $patch does not apply"; echo 1 > "$tmp/fail"; rm -rf "$d"; return
+    echo "SELFTEST-ERROR $patch does not apply"; [ -n "${SELFTEST_SKIP_UNAPPLICABLE:-}" ] || echo 1 > "$tmp/fail"; rm -rf "$d"; return
   fi
   out=$("$here/bin/vcgen" check --verif "$here" --repo "$d/repo" --no-evidence --replay-dir "$d/replays" "$prop" 2>&1); rc=$?
   if [ $rc -eq 1 ] && echo "$out" | grep -q "^VIOLATION property=$prop"; then
@@ -34,6 +36,7 @@ grep -v '^#' "$here/selftest/mutants/expect.tsv" > "$tmp/list"
 while IFS="$(printf '\t')" read -r patch prop expect; do
   [ -z "$patch" ] && continue
   case "$patch$prop" in *"$filter"*) ;; *) continue;; esac
+  if [ -n "${SELFTEST_PROP:-}" ] && [ "$prop" != "$SELFTEST_PROP" ]; then continue; fi
   n=$((n+1))
   one "$n" "$patch" "$prop" "$expect" &
   if [ $((n % jobs)) -eq 0 ]; then wait; fi
